@@ -349,126 +349,85 @@ theorem earth_rotation_rate (D : DateArgs) :
 The result of a conversion is a function of the inputs of that call only — the instant, the EOP record attached to the date, the
 frame graph and the two frames (and, for `Frame.transform`, the state: `frameTransform` is a function by construction) — **for every
 history of earlier calls**.  The model of a process (`sessionRun`, Model/FramesR.lean) carries the one date-dependent memo the code
-has, `iau1980._nutation._cache`, keyed like the code keys it (text of the date, number of terms). -/
+has, `iau1980._nutation_series._cache`, keyed like the code keys it since deb035a: (TT century, number of terms) — everything the
+series reads.  With that key the statement is unconditional (`Memo.sound_iff` with a key that determines the value).  Under the
+former key (the text of the date) it was false: Witness/C02.lean. -/
 
-/-- every entry of the memo under a key of a later call is what that call would compute from scratch -/
-def MemoOK (m : NutMemo) (cs : List Call) : Prop :=
-  ∀ c ∈ cs, (∀ v, m.lookup (c.text, 106) = some v → v = nut106 c.D) ∧ (∀ v, m.lookup (c.text, 4) = some v → v = nut4 c.D)
+/-- every entry of the memo is what the series gives for its key -/
+def MemoOK (rows : List (List ℝ)) (m : NutMemo) : Prop := ∀ k v, m.lookup k = some v → v = nutOf rows k
 
-/-- **the key of the `_nutation` memo determines its value** over the calls of a history: two dates with the same text have the same
-nutation triples (they have: the triples are functions of the TT century — `KeyOK_of_text_determines_tt`) -/
-def KeyOK (cs : List Call) : Prop :=
-  ∀ c ∈ cs, ∀ c' ∈ cs, c.text = c'.text → nut106 c.D = nut106 c'.D ∧ nut4 c.D = nut4 c'.D
+theorem memoGet_fst (rows : List (List ℝ)) (m : NutMemo) (k : ℝ × Nat) (hm : MemoOK rows m) : (memoGet rows m k).1 = nutOf rows k :=
+  Memo.call_fst id (nutOf rows) m k (hm k)
 
-theorem withNut_self (D : DateArgs) : withNut D (nut106 D) (nut4 D) = D := by cases D; rfl
+theorem memoGet_ok (rows : List (List ℝ)) (m : NutMemo) (k : ℝ × Nat) (hm : MemoOK rows m) : MemoOK rows (memoGet rows m k).2 := by
+  intro k' v h
+  rcases Memo.call_lookup id (nutOf rows) m k k' v h with h' | ⟨h1, h2⟩
+  · exact hm k' v h'
+  · rw [h2, h1]; rfl
 
-theorem memoGet_fst (m : NutMemo) (k : Nat × Nat) (x : Nut) (h : ∀ v, m.lookup k = some v → v = x) : (memoGet m k x).1 = x :=
-  Memo.call_fst Prod.fst Prod.snd m (k, x) h
-
-theorem memoGet_lookup (m : NutMemo) (k : Nat × Nat) (x : Nut) (k' : Nat × Nat) (v : Nut)
-    (h : (memoGet m k x).2.lookup k' = some v) : m.lookup k' = some v ∨ (k' = k ∧ v = x) :=
-  Memo.call_lookup Prod.fst Prod.snd m (k, x) k' v h
-
-theorem sessionStep_pure (names : List String) (m : NutMemo) (c : Call) (cs : List Call)
-    (hk : KeyOK (c :: cs)) (hm : MemoOK m (c :: cs)) :
-    (sessionStep names m c).1 = callPure names c ∧ MemoOK (sessionStep names m c).2 cs := by
-  obtain ⟨hc106, hc4⟩ := hm c (List.mem_cons_self ..)
-  -- the memo after the (possible) consultation under terms = 106
-  have h106 : ∀ (t : Bool), (if t then memoGet m (c.text, 106) (nut106 c.D) else (nut106 c.D, m)).1 = nut106 c.D ∧
-      ∀ k' v, (if t then memoGet m (c.text, 106) (nut106 c.D) else (nut106 c.D, m)).2.lookup k' = some v →
-        m.lookup k' = some v ∨ (k' = (c.text, 106) ∧ v = nut106 c.D) := by
-    intro t
-    cases t
-    · exact ⟨rfl, fun k' v h => Or.inl h⟩
-    · exact ⟨memoGet_fst m _ _ hc106, fun k' v h => memoGet_lookup m _ _ k' v h⟩
+theorem sessionStep_pure (names : List String) (rows : List (List ℝ)) (m : NutMemo) (c : Call) (hm : MemoOK rows m) :
+    (sessionStep names rows m c).1 = callPure names rows c ∧ MemoOK rows (sessionStep names rows m c).2 := by
   unfold sessionStep
   simp only
   generalize touches names c.hist c.a c.b = t
   obtain ⟨t1, t2⟩ := t
+  have h106 : (if t1 then memoGet rows m (c.D.ttt, 106) else (nutOf rows (c.D.ttt, 106), m)).1 = nutOf rows (c.D.ttt, 106) ∧
+      MemoOK rows (if t1 then memoGet rows m (c.D.ttt, 106) else (nutOf rows (c.D.ttt, 106), m)).2 := by
+    cases t1
+    · exact ⟨rfl, hm⟩
+    · exact ⟨memoGet_fst rows m _ hm, memoGet_ok rows m _ hm⟩
   simp only
-  obtain ⟨e106, l106⟩ := h106 t1
-  generalize (if t1 then memoGet m (c.text, 106) (nut106 c.D) else (nut106 c.D, m)) = r106 at e106 l106 ⊢
-  have hc4' : ∀ v, r106.2.lookup (c.text, 4) = some v → v = nut4 c.D := by
-    intro v hv
-    rcases l106 _ v hv with h | ⟨h, _⟩
-    · exact hc4 v h
-    · simp at h
-  have h4 : (if t2 then memoGet r106.2 (c.text, 4) (nut4 c.D) else (nut4 c.D, r106.2)).1 = nut4 c.D ∧
-      ∀ k' v, (if t2 then memoGet r106.2 (c.text, 4) (nut4 c.D) else (nut4 c.D, r106.2)).2.lookup k' = some v →
-        r106.2.lookup k' = some v ∨ (k' = (c.text, 4) ∧ v = nut4 c.D) := by
+  obtain ⟨e106, m106⟩ := h106
+  generalize (if t1 then memoGet rows m (c.D.ttt, 106) else (nutOf rows (c.D.ttt, 106), m)) = r106 at e106 m106 ⊢
+  have h4 : (if t2 then memoGet rows r106.2 (c.D.ttt, 4) else (nutOf rows (c.D.ttt, 4), r106.2)).1 = nutOf rows (c.D.ttt, 4) ∧
+      MemoOK rows (if t2 then memoGet rows r106.2 (c.D.ttt, 4) else (nutOf rows (c.D.ttt, 4), r106.2)).2 := by
     cases t2
-    · exact ⟨rfl, fun k' v h => Or.inl h⟩
-    · exact ⟨memoGet_fst r106.2 _ _ hc4', fun k' v h => memoGet_lookup r106.2 _ _ k' v h⟩
-  obtain ⟨e4, l4⟩ := h4
-  generalize (if t2 then memoGet r106.2 (c.text, 4) (nut4 c.D) else (nut4 c.D, r106.2)) = r4 at e4 l4 ⊢
-  refine ⟨by rw [e106, e4, withNut_self]; rfl, ?_⟩
-  intro c' hc'
-  have hkk := hk c (List.mem_cons_self ..) c' (List.mem_cons_of_mem _ hc')
-  obtain ⟨hm106, hm4⟩ := hm c' (List.mem_cons_of_mem _ hc')
-  constructor
-  · intro v hv
-    rcases l4 _ v hv with h | ⟨h, _⟩
-    · rcases l106 _ v h with h' | ⟨h', hv'⟩
-      · exact hm106 v h'
-      · have : c.text = c'.text := by simp at h'; exact h'.symm
-        rw [hv']; exact (hkk this).1
-    · simp at h
-  · intro v hv
-    rcases l4 _ v hv with h | ⟨h, hv'⟩
-    · rcases l106 _ v h with h' | ⟨h', _⟩
-      · exact hm4 v h'
-      · simp at h'
-    · have : c.text = c'.text := by simp at h; exact h.symm
-      rw [hv']; exact (hkk this).2
+    · exact ⟨rfl, m106⟩
+    · exact ⟨memoGet_fst rows r106.2 _ m106, memoGet_ok rows r106.2 _ m106⟩
+  obtain ⟨e4, m4⟩ := h4
+  generalize (if t2 then memoGet rows r106.2 (c.D.ttt, 4) else (nutOf rows (c.D.ttt, 4), r106.2)) = r4 at e4 m4 ⊢
+  exact ⟨by rw [e106, e4]; rfl, m4⟩
 
-/-- **along every history whose memo key determines the memoized value, every call returns what it returns in a fresh process** -/
-theorem sessionRun_pure (names : List String) : ∀ (cs : List Call) (m : NutMemo), KeyOK cs → MemoOK m cs →
-    sessionRun names m cs = cs.map (callPure names) := by
+/-- **along every history, from every memo the process can have built, every call returns what it returns in a fresh process** -/
+theorem sessionRun_pure (names : List String) (rows : List (List ℝ)) : ∀ (cs : List Call) (m : NutMemo), MemoOK rows m →
+    sessionRun names rows m cs = cs.map (callPure names rows) := by
   intro cs
   induction cs with
-  | nil => intro _ _ _; rfl
+  | nil => intro _ _; rfl
   | cons c cs ih =>
-    intro m hk hm
-    obtain ⟨h1, h2⟩ := sessionStep_pure names m c cs hk hm
+    intro m hm
+    obtain ⟨h1, h2⟩ := sessionStep_pure names rows m c hm
     simp only [sessionRun, List.map_cons]
-    rw [h1, ih _ (fun a ha b hb => hk a (List.mem_cons_of_mem _ ha) b (List.mem_cons_of_mem _ hb)) h2]
+    rw [h1, ih _ h2]
 
-theorem MemoOK_nil (cs : List Call) : MemoOK [] cs := by
-  intro c _; constructor <;> intro v hv <;> simp at hv
+theorem MemoOK_nil (rows : List (List ℝ)) : MemoOK rows [] := by
+  intro k v hv; simp at hv
 
-/-- **History independence.**  For every history `h` of earlier conversions in the process and every call `c`: the result of `c`
-is `callPure c` — a function of (`c.D`: the instant and the EOP record of the date at hand, the frame graph, the two frames) alone. -/
-theorem session_history_independent (names : List String) (h : List Call) (c : Call) (hk : KeyOK (h ++ [c])) :
-    (sessionRun names [] (h ++ [c])).getLast? = some (callPure names c) := by
-  rw [sessionRun_pure names _ [] hk (MemoOK_nil _)]
+/-- **History independence** (full statement since deb035a; `_partial` before).  For every history `h` of earlier conversions in the
+process — other instants, the same instant under other EOP records, other frames, any order, repeated requests — and every call `c`:
+the result of `c` is `callPure c`, a function of (`c.D`: the instant and the EOP record of the date at hand, the frame graph, the two
+frames) alone. -/
+theorem session_history_independent (names : List String) (rows : List (List ℝ)) (h : List Call) (c : Call) :
+    (sessionRun names rows [] (h ++ [c])).getLast? = some (callPure names rows c) := by
+  rw [sessionRun_pure names rows _ [] (MemoOK_nil rows)]
   simp
 
-/-- the same call after two different histories (other instants, other EOP configurations, other orders, repeated requests) returns the same -/
-theorem session_order_independent (names : List String) (h₁ h₂ : List Call) (c : Call)
-    (hk₁ : KeyOK (h₁ ++ [c])) (hk₂ : KeyOK (h₂ ++ [c])) :
-    (sessionRun names [] (h₁ ++ [c])).getLast? = (sessionRun names [] (h₂ ++ [c])).getLast? := by
-  rw [session_history_independent names h₁ c hk₁, session_history_independent names h₂ c hk₂]
+/-- the same call after two different histories returns the same -/
+theorem session_order_independent (names : List String) (rows : List (List ℝ)) (h₁ h₂ : List Call) (c : Call) :
+    (sessionRun names rows [] (h₁ ++ [c])).getLast? = (sessionRun names rows [] (h₂ ++ [c])).getLast? := by
+  rw [session_history_independent names rows h₁ c, session_history_independent names rows h₂ c]
 
-/-- `KeyOK` holds when the text of a date determines its TT century — dates given in TT / TAI / GPS / TDB, or in UTC under EOP
-sources that agree on TAI−UTC — the triples in `D` being `_nutation` computed from scratch -/
-theorem KeyOK_of_text_determines_tt (rows : List (List ℝ)) (cs : List Call)
-    (hwf : ∀ c ∈ cs, nut106 c.D = nutOf c.D.ttt rows ∧ nut4 c.D = nutOf c.D.ttt (rows.take 4))
-    (htt : ∀ c ∈ cs, ∀ c' ∈ cs, c.text = c'.text → c.D.ttt = c'.D.ttt) : KeyOK cs := by
-  intro c hc c' hc' ht
-  rw [(hwf c hc).1, (hwf c hc).2, (hwf c' hc').1, (hwf c' hc').2, htt c hc c' hc' ht]
-  exact ⟨rfl, rfl⟩
+/-- the key of the memo determines its value: the hypothesis of `Memo.sound_iff`, for `_nutation_series` -/
+theorem nutation_series_key_sound (rows : List (List ℝ)) (xs : List (ℝ × Nat)) :
+    Memo.run id (nutOf rows) [] xs = xs.map (nutOf rows) :=
+  (Memo.sound_iff id (nutOf rows)).2 (fun _ _ h => congrArg (nutOf rows) h) xs
 
-/-- **The model is faithful to the memo the code has** (`history_independent_partial`: without `KeyOK` the statement fails).  Two
-conversions TOD→MOD-like (routes that consult `terms = 106` only) at dates with the same text: the second one is computed with the
-nutation triple of the FIRST date — e.g. the same UTC text under an EOP source with another TAI−UTC (EOP missing: 0 s instead of
-10…37 s), or, for the public `iau1980.nutation(date)` / `equinox(date)` / `sideral(date, model="apparent")` with their default
-`eop_correction=True`, under an EOP source with other δΔψ, δΔε (known finding C02-nutation-memo-eop). -/
-theorem session_stale (names : List String) (c₁ c₂ : Call) (ht : c₁.text = c₂.text)
-    (h₁ : touches names c₁.hist c₁.a c₁.b = (true, false)) (h₂ : touches names c₂.hist c₂.a c₂.b = (true, false)) :
-    sessionRun names [] [c₁, c₂] =
-      [callPure names c₁, orientConvert (withNut c₂.D (nut106 c₁.D) (nut4 c₂.D)) names c₂.hist c₂.extras c₂.a c₂.b] := by
-  have e : withNut c₁.D (nut106 c₁.D) (nut4 c₁.D) = c₁.D := withNut_self _
-  simp [sessionRun, sessionStep, h₁, h₂, memoGet, Memo.call, List.lookup, ht, e, callPure]
+/-- `_nutation(date, True, terms)` = the series (memoized) plus the corrections of the record of the date, added outside the memo:
+two dates with the same TT instant and different EOP records get different triples, each with its own corrections -/
+theorem nutCorrected_of_record (n : Nut) (dpsi deps : ℝ) :
+    (nutCorrected n dpsi deps).eps = n.eps ∧ (nutCorrected n dpsi deps).dpsi = n.dpsi + dpsi / 3600000.0 ∧
+    (nutCorrected n dpsi deps).deps = n.deps + deps / 3600000.0 := by
+  simp [nutCorrected, nutCorr80]
 
 /-- TOD→MOD and PEF→TOD on the built-in graph consult the memo under `terms = 106` only, TEME→TOD under `terms = 4`,
 MOD→EME2000 and the whole IAU-2010 chain not at all -/
@@ -478,11 +437,5 @@ example : touches Generated.orientNames Generated.orientHist 2 3 = (true, false)
     touches Generated.orientNames Generated.orientHist 3 4 = (false, false) ∧
     touches Generated.orientNames Generated.orientHist 0 9 = (false, false) ∧
     touches Generated.orientNames Generated.orientHist 0 6 = (true, true) := by decide
-
-/-- a history satisfying `KeyOK` with a repeated text: the hypotheses of `session_history_independent` are satisfiable -/
-example (D : DateArgs) : KeyOK [⟨7, D, [], [], 0, 0⟩, ⟨7, D, [], [], 1, 2⟩, ⟨8, D, [], [], 2, 1⟩] := by
-  intro c _ c' _ _
-  simp only [List.mem_cons, List.not_mem_nil, or_false] at *
-  rcases ‹c = _ ∨ _› with rfl | rfl | rfl <;> rcases ‹c' = _ ∨ _› with rfl | rfl | rfl <;> exact ⟨rfl, rfl⟩
 
 end BeyondVerif.C02
